@@ -550,8 +550,6 @@ def import_dobs_string(content, full_output=False, separator_insertion=True):
         cnames_loc = list(new_covobs.keys())
         for name in cnames_loc:
             res[i].names.append(name)
-            res[i].shape[name] = 1
-            res[i].idl[name] = []
         res[i]._covobs = new_covobs
 
     if symbol:
